@@ -35,10 +35,10 @@ def run_impl(b, workdir, s):
     with open(os.path.join(d, s.name + ".exp"), "w") as fh:
         fh.write(s.express())
     try:
-        r = subprocess.run([b.tool("exp2python"), s.name + ".exp"], cwd=d, env=b.env(), capture_output=True, text=True, timeout=60)
+        r = subprocess.run([b.tool("exp2python"), s.name + ".exp"], cwd=d, env=b.env(), capture_output=True, text=True, timeout=TOOL_TIMEOUT)
         rc, err = r.returncode, r.stderr
     except subprocess.TimeoutExpired:
-        rc, err = -999, "timeout"
+        rc, err = -999, f"no return within {TOOL_TIMEOUT} s"
     files = sorted(f for f in os.listdir(d) if f.endswith(".py"))
     line = ""
     if rc == 0 and files == [s.name + ".py"]:
@@ -59,7 +59,7 @@ def run_lean(exe, mode, schemas):
 
 def parse_items(line):
     """-> (pkg, {class: (bases, ctor)}, {type: body})"""
-    pkg, classes, types = None, {}, {}
+    pkg, classes, types, props = None, {}, {}, {}
     for it in [x.strip() for x in line.split("|")]:
         if it.startswith("pkg="):
             pkg = it[4:]
@@ -67,6 +67,9 @@ def parse_items(line):
             m = re.match(r"class (\S+) bases=(\S+) ctor(?:attrs)?=(\S+)$", it)
             name, bs, ct = m.group(1), m.group(2), m.group(3)
             classes[name] = ([] if bs == "-" else bs.split(","), None if ct == "!" else ([] if ct == "-" else ct.split(",")))
+        elif it.startswith("props "):
+            n, body = it[6:].split("=", 1)
+            props[n] = body
         elif it.startswith("type "):
             n, body = it[5:].split("=", 1)
             k = body.split(":")[0]
@@ -74,7 +77,7 @@ def parse_items(line):
                 rest = body.split(":", 1)[1]
                 body = k + ":" + ",".join(sorted([] if rest == "-" else rest.split(",")))
             types[n] = body
-    return pkg, classes, types
+    return pkg, classes, types, props
 
 
 def oracle(s, impl, spec_line):
@@ -86,8 +89,8 @@ def oracle(s, impl, spec_line):
     line = impl["line"]
     if not line.startswith("ok"):
         return (line.split()[0], f"Python cannot {'compile' if line.startswith('compile') else 'import'} the emitted module against the bundled runtime: {line[:300]}")
-    _, classes, types = parse_items(line)
-    _, sclasses, stypes = parse_items(spec_line)
+    _, classes, types, _ = parse_items(line)
+    _, sclasses, stypes, _ = parse_items(spec_line)
     w = re.search(r"\| wiring=(\S+)", line)
     wiring = w.group(1) if w else "missing"
     by_ent = {}
@@ -107,6 +110,13 @@ def oracle(s, impl, spec_line):
         if got != want_c:
             return ("ctor-order", f"class {e.name}: constructor takes {ctor}, Part 21 order of the explicit attributes is {want_c}",
                     {"entity": e.name, "got": got, "want": want_c})
+    mo = re.search(r"\| order=(\S+)", line)
+    emitted = [] if not mo or mo.group(1) == "-" else [unescape(x) for x in mo.group(1).split(",")]
+    names = {e.name for e in s.entities}
+    for e in s.entities:
+        for p in e.supers:
+            if p in names and e.name in emitted and p in emitted and emitted.index(p) > emitted.index(e.name):
+                return ("class-order", f"class {e.name} is written before the class of its supertype {p}: {emitted}")
     if wiring != "ok":
         return ("wiring", f"a constructor parameter does not reach its attribute (instantiating with one sentinel per parameter): {wiring}")
     by_type = {}
@@ -135,7 +145,7 @@ def correspondence(impl, model_line):
         return None
     a, b = parse_items(impl["line"]), parse_items(model_line)
     if a != b:
-        for i, what in enumerate(("package", "classes", "types")):
+        for i, what in enumerate(("package", "classes", "types", "properties")):
             if a[i] != b[i]:
                 if i == 0:
                     return f"package: module imports {a[0]}, model says {b[0]}"
@@ -152,6 +162,7 @@ class Runner:
         self.exe = ctx.model_exe("m_c18")
 
     def evaluate(self, schemas):
+        assert len({s.name for s in schemas}) == len(schemas), "schema names in one batch must be distinct (one work directory each)"
         with ThreadPoolExecutor(max_workers=14) as ex:
             impls = list(ex.map(lambda s: run_impl(self.b, self.ctx.work, s), schemas))
         models = run_lean(self.exe, "model", schemas)
@@ -438,6 +449,48 @@ def report(ctx, run, results, schemas, cap=8):
                 return
 
 
+TOOL_TIMEOUT = 10      # seconds; a tool run that does not return is a violation, never a stalled check
+
+
+def run_multi(ctx, b, items):
+    """multi-schema files: exp2python must return within the time bound, exit 0 and write one module per schema, each of
+    which compiles (imports between the modules are outside this property: single-schema inputs)"""
+    def one(it):
+        i, (text, names) = it
+        d = os.path.join(ctx.work, f"multi{i}")
+        os.makedirs(d, exist_ok=True)
+        open(os.path.join(d, "in.exp"), "w").write(text)
+        try:
+            r = subprocess.run([b.tool("exp2python"), "in.exp"], cwd=d, env=b.env(), capture_output=True, text=True, timeout=TOOL_TIMEOUT)
+        except subprocess.TimeoutExpired:
+            return ("tool-timeout", f"exp2python did not return within {TOOL_TIMEOUT} s on a multi-schema file")
+        if r.returncode != 0:
+            return ("exit-status", f"exp2python exited {r.returncode} on an accepted multi-schema file: {r.stderr[-200:]!r}")
+        files = sorted(f for f in os.listdir(d) if f.endswith(".py"))
+        # a schema that depends on a later one is written in several parts <schema>_1.py, <schema>_2.py (multpass_python.c):
+        # by design for multi-schema input, so only require that every schema is written and nothing else is
+        owner = {f: re.sub(r"(_\d+)?\.py$", "", f) for f in files}
+        if set(owner.values()) != set(names):
+            return ("module-file", f"schemas {sorted(names)}, modules written {files}")
+        for f in files:
+            c = subprocess.run([sys.executable, "-B", "-m", "py_compile", f], cwd=d, capture_output=True, text=True, timeout=60)
+            if c.returncode != 0:
+                return ("compile-error", f"{f} does not compile: {c.stderr[-200:]!r}")
+        return None
+    with ThreadPoolExecutor(max_workers=14) as ex:
+        res = list(ex.map(one, enumerate(items)))
+    bad = 0
+    for (text, names), r in zip(items, res):
+        ctx.count(1, key=text)
+        ctx.hist("verdict", "multi:" + (r[0] if r else "ok"))
+        if r:
+            bad += 1
+            if bad <= 3:
+                ctx.violation("multi-schema:" + r[0] + ":" + str(abs(hash(text)) % 10**8), r[1],
+                              {"schema": text, "how": f"run the scratch exp2python on the file (time bound {TOOL_TIMEOUT} s)"})
+    ctx.cov["correspondence"]["multi-schema"] = {"files": len(items), "failures": bad}
+
+
 def batches(ctx):
     quick = ctx.tier == "quick"
     cdir = os.path.join(VERIF, "corpus", "C18")
@@ -456,7 +509,7 @@ def batches(ctx):
                                 for i in range(60 if quick else 600)]
     yield "renamed-enum-in-select", [G.gen_renamed_in_select(ctx.rng, i) for i in range(60 if quick else 600)]
     perms = 6 if quick else 24
-    yield "rename-chains", [G.gen_rename_chain(ctx.rng, 1000 * d + 10 * ki + pi, kind, d)
+    yield "rename-chains", [G.gen_rename_chain(ctx.rng, 10000 * d + 100 * ki + pi, kind, d)
                             for ki, kind in enumerate(sorted(G.SIMPLE) + ["BOOLEAN", "ENUM", "SELECT"])
                             for d in (1, 2, 3, 4) for pi in range(perms if d >= 3 else 2)]
     yield "nested-aggregates", [G.gen_nested_aggregates(ctx.rng, i) for i in range(60 if quick else 600)]
@@ -500,6 +553,11 @@ def run(ctx):
         all_s += schemas; all_r += res
     if any(o or c for o, c, _ in all_r):
         report(ctx, run_, all_r, all_s)
+    multi = [G.gen_multi_schema(ctx.rng, i) for i in range(40 if ctx.tier == "quick" else 400)]
+    hang = os.path.join(VERIF, "corpus", "C12", "exp2python-hangs-two-schemas.exp.txt")
+    if os.path.exists(hang):
+        multi.insert(0, (open(hang).read(), ["s_bebe", "s_ne"]))
+    run_multi(ctx, run_.b, multi)
     ctx.sample({"schema": all_s[-1].express(), "introspection": all_r[-1][2]["line"][:600]})
     ctx.cov["rule"] = ("generated single-schema EXPRESS files: 1-9 entities with single/multiple/diamond supertypes, explicit/optional/"
                        "derived/inverse attributes typed by simple, defined, entity and aggregate types; defined types of every body kind "
